@@ -32,6 +32,7 @@ type ReplayResult struct {
 	Panic       string
 	AssumeFail  bool
 	Raw         string
+	Ended       bool
 }
 
 const replayTestTmpl = `package %s
@@ -88,7 +89,52 @@ func TestZZVerifReplay(t *testing.T) {
 `
 
 // replayBatch runs all cases of one package in a single `go test` invocation.
+// replayBatch runs the cases; when the test process dies in the middle of a case (a panic in
+// a goroutine kills the binary - exactly what "crashes the node" means), that case is marked
+// as crashed and the remaining cases are run in a fresh process.
 func replayBatch(dir string, pkgPath string, pkgName string, harnessNames []string, cases []*ReplayCase, race bool, repeat int, overlayPaths map[string]string) (map[string]*ReplayResult, string, error) {
+	all := map[string]*ReplayResult{}
+	var allText strings.Builder
+	remaining := cases
+	for round := 0; round < 8 && len(remaining) > 0; round++ {
+		res, text, err := replayBatchOnce(dir, pkgPath, pkgName, harnessNames, remaining, race, repeat, overlayPaths)
+		allText.WriteString(text)
+		if err != nil && len(res) == 0 {
+			return all, allText.String(), err
+		}
+		var next []*ReplayCase
+		crashedSeen := false
+		for _, c := range remaining {
+			r := res[c.ID]
+			switch {
+			case r != nil && r.Ended:
+				all[c.ID] = r
+			case r != nil && !r.Ended && !crashedSeen:
+				crashedSeen = true
+				r.Panic = "test process died during this replay: " + firstPanicLine(r.Raw+text)
+				all[c.ID] = r
+			default:
+				next = append(next, c)
+			}
+		}
+		if len(next) == len(remaining) {
+			break
+		}
+		remaining = next
+	}
+	return all, allText.String(), nil
+}
+
+func firstPanicLine(text string) string {
+	for _, l := range strings.Split(text, "\n") {
+		if strings.HasPrefix(strings.TrimSpace(l), "panic:") {
+			return strings.TrimSpace(l)
+		}
+	}
+	return "no panic line found"
+}
+
+func replayBatchOnce(dir string, pkgPath string, pkgName string, harnessNames []string, cases []*ReplayCase, race bool, repeat int, overlayPaths map[string]string) (map[string]*ReplayResult, string, error) {
 	if err := os.MkdirAll(dir, 0o755); err != nil {
 		return nil, "", err
 	}
@@ -159,6 +205,9 @@ func replayBatch(dir string, pkgPath string, pkgName string, harnessNames []stri
 				res[c.ID] = cur
 			}
 		case strings.HasPrefix(line, "VRT-END "):
+			if cur != nil {
+				cur.Ended = true
+			}
 			cur = nil
 		case cur == nil:
 		case strings.HasPrefix(line, "VRT-ASSERT-FAIL "):
